@@ -126,7 +126,7 @@ func rulesC13(c *Ctx) {
 		for i, closeV := range closeVs {
 			guards := g.GuardsAt(closeV)
 			okThr := hasAtom(guards, func(a Atom) bool {
-				x, y, op, ok := binaryCmp(a.E)
+				x, y, op, ok := cmpOn(a.E, func(e ast.Expr) bool { return loop.ObjOf(e) == ctr })
 				if !ok || loop.ObjOf(x) != ctr || loop.ObjOf(y) != types.Object(thr) {
 					return false
 				}
@@ -575,7 +575,7 @@ func rulesC14(c *Ctx) {
 			if o == nil || o.IsField() {
 				continue
 			}
-			if !(hl.Lit.Pos() <= o.Pos() && o.Pos() <= hl.Lit.End()) {
+			if !(hl.Lit.Pos() <= o.Pos() && o.Pos() <= hl.Lit.Body.Rbrace) {
 				bad = o.Name() + " at " + hl.At(w.Stmt)
 			}
 		}
